@@ -1506,6 +1506,21 @@ fn worlds(thorough: bool) -> Vec<W> {
         depth: (2, 3),
         weight: 1.0,
     });
+    // An adaptive-fee tier whose index EQUALS its tick spacing (the index reserved for the static tier of that spacing, by which the
+    // SDK tells the two kinds of pool apart): the program refuses to create it (InvalidFeeTierIndex), so on the unchanged tree this
+    // world does not exist. Should the program ever accept it, the pool it yields is explored like the other adaptive-fee worlds —
+    // "for static- and adaptive-fee pools ... never fails where the program succeeds" applies to it as to any pool that can exist.
+    {
+        let mut spec = af_spec("c20-af-reserved-index", 64, 30_000, 50_000, 5000, None);
+        spec.fee_tier_index = 64;
+        let prev = std::panic::take_hook();
+        std::panic::set_hook(Box::new(|_| {}));
+        let built = std::panic::catch_unwind(|| build_af_world(&spec));
+        std::panic::set_hook(prev);
+        if let Ok(b) = built {
+            v.push(W { built: b, kind: Kind::Af, fees: Fees::default(), depth: (1, 2), weight: 0.5 });
+        }
+    }
     // adaptive fee: small saturation range (3 groups): the skip logic runs on every crossing swap
     v.push(W { built: build_af_world(&af_spec("c20-af-g64-sat3", 64, 30_000, 50_000, 5000, None)), kind: Kind::Af, fees: Fees::default(), depth: (2, 3), weight: 2.0 });
     // strongest control factor: the total rate passes 65 535 four groups from the reference and reaches the 10 % hard limit at five
